@@ -422,8 +422,10 @@ func (c *tunnelTimeMetrics) Describe(ch chan<- *prometheus.Desc) {
 }
 
 func (c *tunnelTimeMetrics) Collect(ch chan<- prometheus.Metric) {
-	tNow := now()
 	c.mu.Lock()
+	// Read the clock with the lock held: a client registered after an earlier
+	// reading would have a start time in the future.
+	tNow := now()
 	for ipKey, client := range c.activeClients {
 		c.reportTunnelTime(ipKey, client, tNow)
 	}
